@@ -518,3 +518,16 @@ def write_replay(pid, seed, k, body):
         json.dump(body, f, indent=1)
         f.write("\n")
     return p
+
+
+def safe_compare(mod, c, iv, mv):
+    """mod.compare(c, iv, mv) (or plain equality); a judge that trips over the implementation's observation (an
+    unexpected shape: the model's own output is well-formed by construction) reports that as the difference
+    instead of failing the check"""
+    if not hasattr(mod, "compare"):
+        return None if iv == mv else "impl != model"
+    try:
+        return mod.compare(c, iv, mv)
+    except Exception as e:
+        return ("the implementation's observation has a shape the judge cannot read (%s: %s): impl %r"
+                % (type(e).__name__, e, str(jsonable(iv))[:400]))
